@@ -69,6 +69,14 @@ pub fn c11(opts: &Opts, out: &mut Out, ped_labels: &[Vec<u8>]) {
         let rp = rrun::params(8, 2, d);
         out.oracle("C11:compressed-forms", rp.h_base_compressed() == rp.h_base().compress() && rp.g_bases_compressed().iter().zip(rp.g_bases().iter()).all(|(c, p)| *c == p.compress()), &key, "parameter accessors disagree");
     }
+    // (2b) fresh processes requesting the extension degrees in other orders than ascending: the cached tables must
+    // give the same generators and encodings whatever was requested first
+    let exe = std::env::current_exe().expect("exe");
+    for order in ["6,3,1,5,2,4", "3,6", "2,1", "5"] {
+        let o = std::process::Command::new(&exe).arg("C11-child").arg(order).output();
+        let ok = o.as_ref().map(|o| o.status.success() && String::from_utf8_lossy(&o.stdout).lines().filter(|l| l.starts_with("DEG ")).all(|l| l.ends_with(" ok")) && String::from_utf8_lossy(&o.stdout).lines().filter(|l| l.starts_with("DEG ")).count() == order.split(',').count()).unwrap_or(false);
+        out.oracle("C11:generators-independent-of-request-order", ok, &format!("fresh process, degrees requested in order {}", order), &format!("{:?}", o.map(|o| String::from_utf8_lossy(&o.stdout).to_string())));
+    }
     // (3) all 2*64*32 + 6 + 1 points pairwise distinct, none the identity
     let rp = rrun::params(64, 32, 6);
     let mut set = HashSet::new();
@@ -101,6 +109,19 @@ pub fn c11(opts: &Opts, out: &mut Out, ped_labels: &[Vec<u8>]) {
     out.oracle("C11:deterministic-across-threads", all_same, "bits=16 cap=4 degree=3 x 8 threads", "constructions differ");
     out.stat("distinct_classes", classes.len() + 6);
     out.case("all (bits, capacity) in {1..64} x {1..32}: accessors = Elligator(SHAKE256 block) via free-module-observed inputs; table order; capacity-freeness; Pedersen labels from the model; 4103 points distinct".into());
+}
+
+/// child process for C11: request the Pedersen generator sets in the given order and check each against the labels
+pub fn c11_child(order: &str, ped_labels: &[Vec<u8>]) {
+    for d in order.split(',').filter_map(|x| x.parse::<usize>().ok()) {
+        let pg = create_pedersen_gens_with_extension_degree(fmrun::deg(d));
+        let ok = pg.g_base_vec.len() == d
+            && pg.g_base_compressed_vec.len() == d
+            && (0..d).all(|k| pg.g_base_compressed_vec[k] == pg.g_base_vec[k].compress())
+            && (ped_labels.is_empty() || (0..d).all(|k| RistrettoPoint::hash_from_bytes_sha3_512(&ped_labels[k]) == pg.g_base_vec[k]))
+            && pg.h_base_compressed == pg.h_base.compress();
+        println!("DEG {} {}", d, if ok { "ok" } else { "FAIL" });
+    }
 }
 
 pub fn c12(opts: &Opts, out: &mut Out) {
